@@ -203,4 +203,18 @@ PROPS = {
         "assumptions": ["equality of packets is field-wise via the serde view: integers and enumerants by value, floats by bit pattern (non-finite floats only as 'non-finite'), text by code points, sets in insertion order", "'in-domain' = RepBody: integers in range, defined enumerants, only defined flag bits, nibbles <= 15, durations a multiple of the field resolution and in range, NUL-free text up to the width, element counts fitting the count byte"],
         "timeout": {"quick": 900, "thorough": 7200},
     },
+    "C04": {
+        "level_text": "Lean theorems: the packet parser over the 73 regenerated layouts (generic field codec, vectors, sets, until-end texts, the hand-written codecs, MSO) never yields the panic outcome for any byte string (structural induction over the layout), hence Codec::decode is total in both modes; for every buffer exactly one of three outcomes holds — need-more with the buffer untouched; a packet or decode error after removing exactly the announced frame, with 4 <= announced <= limit and announced <= buffer length; a framing error with the buffer untouched, only when the announced length is below 4 or above the mode's limit; the parser is handed only the announced frame, so whatever follows a complete frame neither influences the result nor is consumed, and after a decode error the buffer holds exactly the successors. Tied by correspondence over all 65536 (size, type) headers, truncations, shortened announcements, bit flips, every byte value in every enum/bool/count/custom position of every kind, CIM mode x sub-mode, random buffers; the oracle checks the three-way statement and frame locality on the real decoder under catch_unwind.",
+        "level_note": "Trusted: as C01. Panics that originate inside dependencies (binrw, bytes) are outside the model and would be seen by the harness only. The totality theorem is about the model; the correspondence run (zero disagreements incl. on hostile input) is what transfers it to the code.",
+        "technique": "Lean 4 proof (structural induction: no panic outcome reachable; case analysis of decode_length) + translator + differential correspondence on hostile inputs",
+        "translators": ["packets", "vehicle", "track"],
+        "resolve": True,
+        "trusted": [
+            "translate/packets.py (as C01)",
+            "hand-modelled, tied by the correspondence run only: Mode::decode_length, Codec::decode (split_to, advance), the hand-written readers",
+        ],
+        "rule": "pkt.dec per buffer; classes: header pairs, valid frames with wild fields, truncations at every length, shortened announcements, bit flips, enum-position sweeps, random; locality cases are oracle-only; distinct = distinct op text",
+        "assumptions": ["'impossible announced length' includes lengths below 4 (DESIGN.md section 8, reading of the statements)"],
+        "timeout": {"quick": 900, "thorough": 7200},
+    },
 }
